@@ -30,6 +30,8 @@ type c15CLICase struct {
 	Repl   string   `json:"repl,omitempty"` // "" = flag not given (AMBIG)
 	NoGap  bool     `json:"nogap,omitempty"`
 	NoRef  bool     `json:"noref,omitempty"`
+	// Pad (pos): the positions are written zero-padded to this width ("010" is ten)
+	Pad int `json:"pad,omitempty"`
 }
 
 func c15CheckCLI(c *mc.Ctx, box *cliBox, cs c15CLICase) {
@@ -100,7 +102,7 @@ func c15CheckCLI(c *mc.Ctx, box *cliBox, cs c15CLICase) {
 	case "pos":
 		var ps []string
 		for _, p := range cs.Pos {
-			ps = append(ps, strconv.Itoa(p))
+			ps = append(ps, fmt.Sprintf("%0*d", cs.Pad, p))
 		}
 		args = append(args, "--pos", strings.Join(ps, ","))
 	case "unique":
@@ -194,6 +196,15 @@ func c15CLITasks(thorough bool) []mc.Task {
 						}
 						return !c.Expired()
 					})
+					// positions of two digits, written plainly and zero-padded (as seq -w or printf %03d write them)
+					if repl == "" {
+						long := []string{"ACACACACACAC", "CACA-ACACA-A"}
+						for _, ps := range [][]int{{10, 11}, {8}, {9, 10}, {7, 8, 11}} {
+							for _, pad := range []int{0, 2, 3} {
+								c15CheckCLI(c, box, c15CLICase{CLI: true, Alpha: alpha, Seqs: long, Ref: ref, Mode: "pos", Pos: ps, Pad: pad})
+							}
+						}
+					}
 					// more rows: rare residues need a majority
 					for _, s := range [][]string{{"AC-A", "ACCA", "A-CC", "CCCA"}, {"-A-", "-AC", "CA-", "CAA", "-CA"}} {
 						for k := 0; k <= 3; k++ {
